@@ -215,8 +215,13 @@ def gen_speciesio(repo, out):
     write_if_changed(os.path.join(out, "GenSpeciesIO.v"), "\n".join(out_lines) + "\n")
 
 
-TARGETS = {"species": gen_species, "radiation": gen_radiation, "speciesio": gen_speciesio}
-FILES = {"speciesio": "GenSpeciesIO.v", "species": "GenSpecies.v", "radiation": "GenRadiation.v", "mixture": "GenMixture.v", "transport": "GenTransport.v"}
+def gen_effects(repo, out):
+    import effects
+    write_if_changed(os.path.join(out, "GenEffects.v"), effects.generate(repo))
+
+
+TARGETS = {"effects": gen_effects, "species": gen_species, "radiation": gen_radiation, "speciesio": gen_speciesio}
+FILES = {"effects": "GenEffects.v", "speciesio": "GenSpeciesIO.v", "species": "GenSpecies.v", "radiation": "GenRadiation.v", "mixture": "GenMixture.v", "transport": "GenTransport.v"}
 
 if __name__ == "__main__":
     repo, out = sys.argv[1], sys.argv[2]
